@@ -3,7 +3,7 @@
 case = {"tree": <node>, "size": [cols] | [cols, rows], "moves": [[col, row], ...]}
 
 node (JSON lists, first element = kind):
-  ["leaf", id, box(0/1), h, sel, api, cur|None, rej[list of rows], minw]     spy leaf
+  ["leaf", id, box(0/1), h, sel, api, cur|None, rej[list of rows], minw, wrap]     spy leaf (flow: h rows, h+1 below width wrap)
   ["fill"]                                         SolidFill background (bottom of an Overlay)
   ["pile", focus, [[opt, node], ...]]              opt = ["pack"] | ["given", n] | ["weight", n]
   ["columns", focus, dividechars, min_width, [[opt, box(0/1), node], ...]]   opt = ["given", n] | ["weight", n]
@@ -55,9 +55,10 @@ def spy_classes():
         """Leaf without the cursor protocol: draws its marker, records mouse events."""
         ignore_focus = False
 
-        def __init__(self, ctx, lid, box, h, sel, cur, rej, minw):
+        def __init__(self, ctx, lid, box, h, sel, cur, rej, minw, wrap):
             super().__init__()
             self.ctx, self.lid, self.box, self.h, self.cur, self.rej, self.minw = ctx, lid, box, h, cur, rej, minw
+            self.wrap = wrap
             self._selectable = bool(sel)
             self._sizing = frozenset([urwid.BOX if box else urwid.FLOW])
             self.ch = mark(lid).encode("utf-8")
@@ -71,7 +72,10 @@ def spy_classes():
         def rows(self, size, focus=False):
             if self.box:
                 raise AttributeError("box spy has no rows()")
-            return self.h
+            return self.h + 1 if size[0] < self.wrap else self.h
+
+        def nrows(self, size):
+            return size[1] if self.box else self.rows(size)
 
         def _cursor(self, size):
             if self.cur is None:
@@ -81,7 +85,7 @@ def spy_classes():
             return (min(self.cur[0], size[0] - 1), self.cur[1])
 
         def render(self, size, focus=False):
-            nrows = size[1] if self.box else self.h
+            nrows = self.nrows(size)
             self.ctx.log.append(("render", self.lid, tuple(size), bool(focus)))
             c = urwid.CompositeCanvas(urwid.TextCanvas([self.ch * size[0] for _ in range(nrows)], maxcol=size[0]))
             if focus and self.cur is not None:
@@ -106,7 +110,7 @@ def spy_classes():
 
         def move_cursor_to_coords(self, size, col, row):
             self.ctx.log.append(("move", self.lid, tuple(size), col, row))
-            nrows = size[1] if self.box else self.h
+            nrows = self.nrows(size)
             if not self._selectable or not isinstance(row, int) or not (0 <= row < nrows) or row in self.rej:
                 return False
             if col == "left":
@@ -183,9 +187,9 @@ def build1(node, ctx, mode):
     cm = iter(child_modes(node, mode) if mode else [None] * 99)
     sub = lambda n: build(n, ctx, next(cm))  # noqa: E731
     if k == "leaf":
-        _, lid, box, h, sel, api, cur, rej, minw = node
+        _, lid, box, h, sel, api, cur, rej, minw, wrap = node
         cls = spy_classes()["Spy" if api else "SpyBase"]
-        w = cls(ctx, lid, box, h, sel, tuple(cur) if cur is not None else None, list(rej), minw)
+        w = cls(ctx, lid, box, h, sel, tuple(cur) if cur is not None else None, list(rej), minw, wrap)
         ctx.leaves[lid] = w
         return w
     if k == "fill":
@@ -311,7 +315,7 @@ def path_to_leaf(node, lid, acc=()):
     return None
 
 
-def fits_w(w, size):
+def fits_w(w, size, atomic=()):
     """No child hidden or clipped for lack of space: walk the urwid tree top-down with the sizes the
     containers' own helper methods hand to their children (the precondition of the property)."""
     import urwid
@@ -321,17 +325,20 @@ def fits_w(w, size):
         return False
     if isinstance(w, S["SpyBase"]):
         return maxcol >= w.minw and (len(size) == 2) == bool(w.box)
+    if any(w is a for a in atomic):
+        return True
     if isinstance(w, urwid.LineBox):
-        return fits_w(w._w, size)
+        # the border pieces are atoms; the (empty) title column inside the top line is legitimately zero-width
+        return fits_w(w._w, size, atomic + ((w.tline_widget,) if w.tline_widget is not None else ()))
     if isinstance(w, urwid.AttrMap):
-        return fits_w(w.original_widget, size)
+        return fits_w(w.original_widget, size, atomic)
     if isinstance(w, urwid.BoxAdapter):
-        return len(size) == 1 and w.height >= 1 and fits_w(w.original_widget, (maxcol, w.height))
+        return len(size) == 1 and w.height >= 1 and fits_w(w.original_widget, (maxcol, w.height), atomic)
     if isinstance(w, urwid.Pile):
         _, heights, args = w.get_rows_sizes(size, focus=True)
         if not heights or any(h < 1 for h in heights) or (len(size) == 2 and sum(heights) > size[1]):
             return False
-        return all(fits_w(c, a) for (c, _), a in zip(w.contents, args))
+        return all(fits_w(c, a, atomic) for (c, _), a in zip(w.contents, args))
     if isinstance(w, urwid.Columns):
         widths, heights, args = w.get_column_sizes(size, focus=True)
         n = len(w.contents)
@@ -339,29 +346,29 @@ def fits_w(w, size):
             return False
         if any(h < 1 for h in heights):
             return False
-        return all(fits_w(c, a) for (c, _), a in zip(w.contents, args))
+        return all(fits_w(c, a, atomic) for (c, _), a in zip(w.contents, args))
     if isinstance(w, urwid.Padding):
         left, right = w.padding_values(size, True)
-        return left >= 0 and right >= 0 and fits_w(w.original_widget, (maxcol - left - right,) + tuple(size[1:]))
+        return left >= 0 and right >= 0 and fits_w(w.original_widget, (maxcol - left - right,) + tuple(size[1:]), atomic)
     if isinstance(w, urwid.Filler):
         maxrow = w.pack(size, True)[1]
         top, bottom = w.filler_values(size, True)
         if top < 0 or bottom < 0:
             return False
         if w.height_type == urwid.WHSettings.PACK:
-            return w.original_widget.rows((maxcol,), True) <= maxrow - top - bottom and fits_w(w.original_widget, (maxcol,))
-        return fits_w(w.original_widget, (maxcol, maxrow - top - bottom))
+            return w.original_widget.rows((maxcol,), True) <= maxrow - top - bottom and fits_w(w.original_widget, (maxcol,), atomic)
+        return fits_w(w.original_widget, (maxcol, maxrow - top - bottom), atomic)
     if isinstance(w, urwid.Frame):
         if len(size) != 2:
             return False
         (ht, ft), (hr, fr) = w.frame_top_bottom(size, True)
         if ht != hr or ft != fr or size[1] - ht - ft < 1:
             return False
-        if w.header is not None and not (hr >= 1 and fits_w(w.header, (maxcol,))):
+        if w.header is not None and not (hr >= 1 and fits_w(w.header, (maxcol,), atomic)):
             return False
-        if w.footer is not None and not (fr >= 1 and fits_w(w.footer, (maxcol,))):
+        if w.footer is not None and not (fr >= 1 and fits_w(w.footer, (maxcol,), atomic)):
             return False
-        return fits_w(w.body, (maxcol, size[1] - ht - ft))
+        return fits_w(w.body, (maxcol, size[1] - ht - ft), atomic)
     if isinstance(w, urwid.Overlay):
         if len(size) != 2:
             return False
@@ -371,9 +378,9 @@ def fits_w(w, size):
         tsz = w.top_w_size(size, left, right, top, bottom)
         if len(tsz) == 1 and w.top_w.rows(tsz, True) > size[1] - top - bottom:
             return False
-        return fits_w(w.top_w, tsz) and fits_w(w.bottom_w, size)
+        return fits_w(w.top_w, tsz, atomic) and fits_w(w.bottom_w, size, atomic)
     if isinstance(w, urwid.GridFlow):
-        return len(size) == 1 and maxcol >= w.cell_width and fits_w(w.get_display_widget(size), size)
+        return len(size) == 1 and maxcol >= w.cell_width and fits_w(w.get_display_widget(size), size, atomic)
     if isinstance(w, urwid.ListBox):
         if len(size) != 2:
             return False
@@ -381,11 +388,11 @@ def fits_w(w, size):
         if middle is None:
             return False
         total = sum(c.rows((maxcol,), True) for c in w.body)
-        return total <= size[1] and all(fits_w(c, (maxcol,)) for c in w.body)
+        return total <= size[1] and all(fits_w(c, (maxcol,), atomic) for c in w.body)
     if isinstance(w, (urwid.Divider, urwid.SolidFill, urwid.Text)):   # Text covers Edit, SelectableIcon
         return True
     if isinstance(w, urwid.WidgetWrap):                                 # Button, CheckBox
-        return fits_w(w._w, size)
+        return fits_w(w._w, size, atomic)
     return True
 
 
@@ -475,13 +482,14 @@ def observe(case, want_moves=True):
         x0, y0, x1, y1, n = where[lid]
         (sz, foc) = calls[0]
         wcols, wrows = x1 - x0 + 1, y1 - y0 + 1
-        need_rows = sz[1] if w.box else w.h
+        need_rows = w.nrows(sz)
         if n != wcols * wrows or wcols != sz[0] or wrows != need_rows or sz[0] < w.minw or wrows < 1:
             fits = False
         leaves.append([lid, x0, y0, wcols, wrows, 1 if foc else 0, sz[0], sz[1] if len(sz) > 1 else -1])
     res["leaves"] = leaves
     res["fits"] = fits
-    res["text"] = rows
+    res["hascur"] = hasattr(subj.w, "get_cursor_coords")
+    res["hasmove"] = hasattr(subj.w, "move_cursor_to_coords")
     res["gcursor"] = subj.gcursor()
     # ---- a button-1 press on every cell of the rendered area ----
     mouse = []
@@ -542,6 +550,7 @@ class Gen:
     def leaf(self, box, sel=None):
         r = self.rng
         h = r.choice([1, 1, 2, 3])
+        wrap = 0 if box else r.choice([0, 0, 0, 2, 3, 4, 6])
         if sel is None:
             sel = r.random() < 0.65
         api = (r.random() < 0.9) if sel else (r.random() < 0.1)
@@ -552,7 +561,7 @@ class Gen:
         if cur is not None and cur[1] in rej:
             rej.remove(cur[1])
         minw = r.choice([1, 1, 1, 2, 3])
-        return ["leaf", self.nid(), 1 if box else 0, h, 1 if sel else 0, 1 if api else 0, cur, rej, minw]
+        return ["leaf", self.nid(), 1 if box else 0, h, 1 if sel else 0, 1 if api else 0, cur, rej, minw, wrap]
 
     def real_leaf(self):
         r = self.rng
@@ -711,6 +720,79 @@ def estimate(node, cols=None):
     return cs[0]
 
 
+def drawn_grid(res):
+    """Which spy leaf is drawn at each cell (-1: none), from the rectangles observed on the canvas
+    (inside the precondition every leaf region is a full rectangle)."""
+    g = [[-1] * res["cols"] for _ in range(res["rows"])]
+    for lid, x0, y0, w, h, *_ in res["leaves"]:
+        for y in range(y0, min(y0 + h, res["rows"])):
+            for x in range(x0, min(x0 + w, res["cols"])):
+                g[y][x] = lid
+    return g
+
+
+ERRNAME = {1: "IndexError", 2: "ValueError", 3: "TypeError", 10: "AttributeError"}
+ATC = {"left": 0, "center": 1, "right": 2, "relative": 3, "top": 0, "middle": 1, "bottom": 2}
+WTC = {"pack": 0, "given": 1, "relative": 2}
+
+
+def _oz(v):
+    return [0] if v is None else [1, v]
+
+
+def _pad(align, width, minw, left, right):
+    return [ATC[align[0]], align[1] if len(align) > 1 else 0, WTC[width[0]], width[1] if len(width) > 1 else 0] + _oz(minw) + [left, right]
+
+
+def enc_tree(node, out):
+    k = node[0]
+    if k == "leaf":
+        _, lid, box, h, sel, api, cur, rej, minw, wrap = node
+        out += [0, lid, box, h, wrap, sel, api, 0 if cur is None else 1, 0 if cur is None else cur[0], 0 if cur is None else cur[1],
+                len(rej)] + list(rej) + [minw]
+    elif k == "fill":
+        out.append(10)
+    elif k == "pile":
+        out += [1, node[1], len(node[2])]
+        for o, c in node[2]:
+            out += [{"pack": 0, "given": 1, "weight": 2}[o[0]], o[1] if len(o) > 1 else 0]
+            enc_tree(c, out)
+    elif k == "columns":
+        out += [2, node[1], node[2], node[3], len(node[4])]
+        for o, b, c in node[4]:
+            out += [{"given": 1, "weight": 2}[o[0]], o[1], b]
+            enc_tree(c, out)
+    elif k == "padding":
+        out += [3] + _pad(*node[2:7])
+        enc_tree(node[1], out)
+    elif k == "filler":
+        out += [4] + _pad(*node[2:7])
+        enc_tree(node[1], out)
+    elif k == "frame":
+        out += [5, {"body": 0, "header": 1, "footer": 2}[node[4]], 1 if node[2] else 0, 1 if node[3] else 0]
+        enc_tree(node[1], out)
+        if node[2]:
+            enc_tree(node[2], out)
+        if node[3]:
+            enc_tree(node[3], out)
+    elif k == "boxadapter":
+        out += [6, node[2]]
+        enc_tree(node[1], out)
+    elif k == "attrmap":
+        out.append(7)
+        enc_tree(node[1], out)
+    elif k == "overlay":
+        _, top, bottom, align, width, valign, height, minw, minh, left, right, t, b = node
+        out += [8] + _pad(align, width, minw, left, right) + _pad(valign, height, minh, t, b)
+        enc_tree(top, out)
+        enc_tree(bottom, out)
+    elif k == "linebox":
+        out += [9, node[2], node[3]]
+        enc_tree(node[1], out)
+    else:
+        raise core.MachineryError("cannot encode node kind %r" % (k,))
+
+
 def has_real(tree):
     return any(n[0] not in MODEL_KINDS for n in walk(tree))
 
@@ -738,7 +820,7 @@ def judge(case, res):
     tree = case["tree"]
     lnodes = leaf_nodes(tree)
     rect = {l[0]: l for l in res["leaves"]}
-    text = res["text"]
+    text = drawn_grid(res)
     # --- clause 1: reported cursor = cursor of the focused rendering ---
     g, r = res["gcursor"], res["rcursor"]
     if g == "noattr":
@@ -753,7 +835,7 @@ def judge(case, res):
     cols = res["cols"]
     for n, got in enumerate(res["mouse"]):
         x, y = n % cols, n // cols
-        i = MARK.find(text[y][x])
+        i = text[y][x]
         if i < 0 or i not in rect:
             note("cell:no-leaf")
             if got:
@@ -784,7 +866,7 @@ def judge(case, res):
         if not (0 <= row < len(text) and 0 <= col < cols):
             note("move:outside")
             continue
-        i = MARK.find(text[row][col])
+        i = text[row][col]
         if i < 0 or i not in rect or i not in lnodes:
             note("move:no-leaf-cell")
             continue
@@ -820,6 +902,137 @@ def judge(case, res):
     return msgs, obs
 
 
+def subtrees(node, mode, path=()):
+    """(path, node, mode) for every node of the tree."""
+    yield path, node, mode
+    cms = child_modes(node, mode)
+    for n, (c, m) in enumerate(zip(children(node), cms)):
+        yield from subtrees(c, m, path + (n,))
+
+
+def replace_at(node, path, new):
+    """Copy of node with the subtree at path (indices into children()) replaced by new."""
+    if not path:
+        return new
+    k, i = node[0], path[0]
+    node = list(node)
+    if k == "pile":
+        node[2] = [[o, replace_at(c, path[1:], new) if n == i else c] for n, (o, c) in enumerate(node[2])]
+    elif k == "columns":
+        node[4] = [[o, b, replace_at(c, path[1:], new) if n == i else c] for n, (o, b, c) in enumerate(node[4])]
+    elif k in ("padding", "filler", "boxadapter", "attrmap", "linebox"):
+        node[1] = replace_at(node[1], path[1:], new)
+    elif k == "frame":
+        slots = [j for j in (1, 2, 3) if node[j]]
+        node[slots[i]] = replace_at(node[slots[i]], path[1:], new)
+    elif k == "overlay":
+        node[1 + i] = replace_at(node[1 + i], path[1:], new)
+    elif k == "gridflow":
+        node[6] = [replace_at(c, path[1:], new) if n == i else c for n, c in enumerate(node[6])]
+    elif k == "listbox":
+        node[2] = [replace_at(c, path[1:], new) if n == i else c for n, c in enumerate(node[2])]
+    return node
+
+
+def simpler_nodes(node, mode):
+    """Smaller / plainer variants of one node that work in the same mode."""
+    k = node[0]
+    cms = child_modes(node, mode)
+    for c, m in zip(children(node), cms):
+        if m == mode and c[0] != "fill":
+            yield c
+    if k == "leaf":
+        base = list(node)
+        for idx, v in ((7, []), (6, None), (3, 1), (8, 1), (9, 0)):
+            if base[idx] != v:
+                n2 = list(base)
+                n2[idx] = v
+                yield n2
+        if node[6] is not None and node[6] != [0, 0]:
+            n2 = list(base)
+            n2[6] = [0, 0]
+            yield n2
+    elif k == "pile":
+        items = node[2]
+        if len(items) > 1:
+            for i in range(len(items)):
+                rest = items[:i] + items[i + 1:]
+                f = node[1] - 1 if node[1] > i else min(node[1], len(rest) - 1)
+                yield ["pile", f, rest]
+        for i, (o, c) in enumerate(items):
+            if o[0] in ("given", "weight") and o[1] != 1:
+                yield ["pile", node[1], items[:i] + [[[o[0], 1], c]] + items[i + 1:]]
+        if node[1] != 0:
+            yield ["pile", 0, items]
+    elif k == "columns":
+        items = node[4]
+        if len(items) > 1:
+            for i in range(len(items)):
+                rest = items[:i] + items[i + 1:]
+                f = node[1] - 1 if node[1] > i else min(node[1], len(rest) - 1)
+                yield ["columns", f, node[2], node[3], rest]
+        if node[2] != 0:
+            yield ["columns", node[1], 0, node[3], items]
+        if node[3] != 1:
+            yield ["columns", node[1], node[2], 1, items]
+        for i, (o, b, c) in enumerate(items):
+            if o != ["weight", 1]:
+                yield ["columns", node[1], node[2], node[3], items[:i] + [[["weight", 1], b, c]] + items[i + 1:]]
+        if node[1] != 0:
+            yield ["columns", 0, node[2], node[3], items]
+    elif k == "padding":
+        for idx, v in ((2, ["left"]), (3, ["relative", 100]), (4, None), (5, 0), (6, 0)):
+            if node[idx] != v:
+                n2 = list(node)
+                n2[idx] = v
+                yield n2
+    elif k == "filler":
+        for idx, v in ((2, ["top"]), (4, None), (5, 0), (6, 0)):
+            if node[idx] != v:
+                n2 = list(node)
+                n2[idx] = v
+                yield n2
+    elif k == "frame":
+        for idx in (2, 3):
+            if node[idx] and node[4] != ("header" if idx == 2 else "footer"):
+                n2 = list(node)
+                n2[idx] = None
+                yield n2
+        if node[4] != "body":
+            n2 = list(node)
+            n2[4] = "body"
+            yield n2
+    elif k == "overlay":
+        for idx, v in ((3, ["left"]), (5, ["top"]), (7, None), (8, None), (9, 0), (10, 0), (11, 0), (12, 0)):
+            if node[idx] != v:
+                n2 = list(node)
+                n2[idx] = v
+                yield n2
+    elif k == "linebox":
+        for idx in (2, 3):
+            if node[idx]:
+                n2 = list(node)
+                n2[idx] = 0
+                yield n2
+    elif k == "gridflow":
+        cells = node[6]
+        if len(cells) > 1:
+            for i in range(len(cells)):
+                rest = cells[:i] + cells[i + 1:]
+                yield ["gridflow", node[1], node[2], node[3], node[4], min(node[5], len(rest) - 1), rest]
+    elif k == "listbox":
+        items = node[2]
+        if len(items) > 1:
+            for i in range(len(items)):
+                rest = items[:i] + items[i + 1:]
+                yield ["listbox", min(node[1], len(rest) - 1), rest]
+    elif k == "edit":
+        if node[3]:
+            yield ["edit", node[1], node[2], node[3][:-1], min(node[4], len(node[3]) - 1), node[5]]
+        if node[2]:
+            yield ["edit", node[1], "", node[3], node[4], node[5]]
+
+
 class C09(core.Check):
     pid = "C09"
     gen_modules = ["geo_padfill"]
@@ -831,8 +1044,54 @@ class C09(core.Check):
 
     # ---------- implementation ----------
     def run_impl(self, case):
-        res = observe(case)
-        res.pop("text", None) if False else None
+        return observe(case)
+
+    # ---------- model wire format ----------
+    def encode(self, case):
+        if has_real(case["tree"]):
+            return None                      # real Edit / Button / GridFlow / ListBox: judged by the oracle only
+        size = case["size"]
+        out = [size[0], 1 if len(size) == 2 else 0, size[1] if len(size) == 2 else 0, len(case["moves"])]
+        for c, r in case["moves"]:
+            out += [c, r]
+        enc_tree(case["tree"], out)
+        return out
+
+    def decode(self, case, ints):
+        it = iter(ints)
+        nx = lambda: next(it)  # noqa: E731
+
+        def oxy():
+            return [nx(), nx()] if nx() else None
+
+        def cres():
+            t = nx()
+            if t == 0:
+                return None
+            if t == 1:
+                return [nx(), nx()]
+            return "EXC:" + ERRNAME.get(nx(), "?")
+        try:
+            if ints[:1] == [-1]:
+                return {"malformed": ints[:20]}
+            res = {"fits": bool(nx()), "hascur": bool(nx()), "hasmove": bool(nx()), "cols": nx(), "rows": nx()}
+            res["rcursor"] = oxy()
+            g = cres()
+            res["gcursor"] = g if res["hascur"] else "noattr"
+            res["leaves"] = sorted([nx() for _ in range(8)] for _ in range(nx()))
+            mouse = []
+            for _ in range(nx()):
+                mouse.append([nx() for _ in range(6)] if nx() else 0)
+            res["mouse"] = mouse
+            moves = []
+            for _ in range(nx()):
+                ok = nx()
+                calls = [[nx() for _ in range(5)]] if nx() else []
+                g2, rc2 = cres(), oxy()
+                moves.append([ok, calls, g2 if res["hascur"] else "noattr", rc2] if res["hasmove"] else "noattr")
+            res["moves"] = moves
+        except StopIteration:
+            return {"malformed": ints[:50]}
         return res
 
     def oracle(self, case, res):
@@ -876,7 +1135,8 @@ class C09(core.Check):
     def add_moves(self, rng, case, res, n):
         cols, rows = res["cols"], res["rows"]
         cells = [(x, y) for y in range(rows) for x in range(cols)]
-        leafcells = [(x, y) for (x, y) in cells if MARK.find(res["text"][y][x]) >= 0]
+        grid = drawn_grid(res)
+        leafcells = [(x, y) for (x, y) in cells if grid[y][x] >= 0]
         mv = []
         for _ in range(n):
             pool = leafcells if leafcells and rng.random() < 0.8 else cells
@@ -907,6 +1167,35 @@ class C09(core.Check):
             c = self.random_case(rng, rng.choice([1, 2, 2, 3, 3, 4]))
             if c is not None:
                 yield c
+
+    def shrink_candidates(self, case):
+        tree, size, moves = case["tree"], list(case["size"]), case["moves"]
+        box = len(size) == 2
+        mode = "box" if box else "flow"
+        # a child of the root in place of the root (its own mode, a few sizes)
+        for c, m in zip(children(tree), child_modes(tree, mode)):
+            if c[0] == "fill":
+                continue
+            if m == mode:
+                yield {"tree": c, "size": size, "moves": moves}
+            elif m == "flow":
+                yield {"tree": c, "size": size[:1], "moves": moves}
+            else:
+                for r in (1, 2, 3, 5):
+                    yield {"tree": c, "size": [size[0], r], "moves": moves}
+        # fewer moves
+        if len(moves) > 1:
+            for i in range(len(moves)):
+                yield {"tree": tree, "size": size, "moves": [moves[i]]}
+        # simpler nodes anywhere
+        for path, node, m in subtrees(tree, mode):
+            for new in simpler_nodes(node, m):
+                yield {"tree": replace_at(tree, path, new), "size": size, "moves": moves}
+        # smaller sizes
+        if size[0] > 1:
+            yield {"tree": tree, "size": [size[0] - 1] + size[1:], "moves": moves}
+        if box and size[1] > 1:
+            yield {"tree": tree, "size": [size[0], size[1] - 1], "moves": moves}
 
     def search_cases(self, rng, tier):
         while True:
